@@ -565,7 +565,7 @@ def convectionTermCylindrical2D(u: FaceVariable):
     mn = Nx*Ny
     # reassign the east, west for code readability
     ue = rf[1:Nx+1, :]*u._xvalue[1:Nx+1, :]/(rp*(DXp+DXe))
-    uw = rf[0:Nx, :]*u._xvalue[0:Nx, :]/(rp*(DXp+DXe))
+    uw = rf[0:Nx, :]*u._xvalue[0:Nx, :]/(rp*(DXp+DXw))
     vn = u._yvalue[:, 1:Ny+1]/(DYp+DYn)
     vs = u._yvalue[:, 0:Ny]/(DYp+DYs)
     # calculate the coefficients for the internal cells
@@ -747,7 +747,7 @@ def convectionTermPolar2D(u: FaceVariable):
     mn = Nx*Ny
     # reassign the east, west for code readability
     ue = rf[1:Nx+1, :]*u._xvalue[1:Nx+1, :]/(rp*(DXp+DXe))
-    uw = rf[0:Nx, :]*u._xvalue[0:Nx, :]/(rp*(DXp+DXe))
+    uw = rf[0:Nx, :]*u._xvalue[0:Nx, :]/(rp*(DXp+DXw))
     vn = u._yvalue[:, 1:Ny+1]/(rp*(DYp+DYn))
     vs = u._yvalue[:, 0:Ny]/(rp*(DYp+DYs))
     # calculate the coefficients for the internal cells
